@@ -181,6 +181,10 @@ func (h *recHost) CreateConnection(ctx context.Context) types.CreateConnectionDa
 		return types.CreateConnectionData{Connection: c, Host: h.Host}
 	}
 	d := h.Host.CreateConnection(ctx)
+	if h.w.winOn {
+		// kind win: a listener registered AHEAD of the pool's (the pool adds its own after CreateConnection returns)
+		d.Connection.AddConnectionEventListener(&winListener{w: h.w, conn: d.Connection})
+	}
 	h.w.mu.Lock()
 	h.w.created = append(h.w.created, d.Connection)
 	if h.w.concurrent {
@@ -291,6 +295,9 @@ type world struct {
 	pre            []*mconn // concurrent phase: records made at creation (same order as created)
 	oneways        int      // one-way requests sent
 	gauge0         gaugeSet // the gauges when the world was made (a fresh cluster and host: all zero)
+	winOn          bool           // kind win: every connection gets a winListener ahead of the pool's listener
+	winArmed       api.Connection // the connection whose close event opens the window
+	winRes         string         // result of the NewStream made inside the window
 }
 
 // gaugeSet: the upstream request_active / connection_active gauges of the host and of the cluster.
